@@ -7,11 +7,18 @@
    C05_per_declaration), and what is parsed for a declaration depends only on the tokens up to the
    next `proc`/`type`/Eof token (C05_locality) - so a damage cannot influence any declaration in
    front of it, and the declarations behind it start at their own keywords again.
-   Not proved: the shift-invariance half of containment (the declarations BEHIND a damage are parsed
-   to the same subtrees, offsets shifted) and the table part; they are decided by the check's
-   exhaustive single-token damage campaign.  C05_full_statement keeps the complete property visible. *)
-From Spl Require Import Model.Lexer Model.Parser Proofs.ParserTotal Proofs.ParserSync Proofs.ParserFwd Proofs.ParserProofs
-  Proofs.PipelineProofs.
+   The shift-invariance half of containment is proved too (second part of this file, from
+   Proofs/ParserShift*.v): from a declaration boundary on the tree is the parse of the remaining tokens
+   as a document of their own (C05_suffix_as_document, C05_suffix_independent); in front of a proc/type
+   token nothing depends on what follows it (C05_prefix_independent); together: a replacement of tokens
+   between a declaration keyword and a later declaration boundary leaves every declaration in front
+   unchanged and moves the identical subtrees behind it by the length difference, syntax errors included
+   (C05_containment, C05_containment_between_keywords, C05_errors_contained).
+   C05_full_statement as first written is too strong for the model and is refuted
+   (C05_full_statement_refuted); C05_contained_in_one_declaration is the version that holds.
+   Not proved: the table part; it is decided by the check's exhaustive single-token damage campaign. *)
+From Spl Require Import Model.Lexer Model.Parser Model.Errors Proofs.ParserTotal Proofs.ParserSync Proofs.ParserFwd Proofs.ParserProofs
+  Proofs.PipelineProofs Proofs.ParserShiftProofs.
 Local Open Scope nat_scope.
 
 Theorem C05_lexer_output_ends_with_eof : forall s toks, lex s = Some toks -> EofLast toks.
@@ -76,3 +83,130 @@ Definition C05_full_statement : Prop :=
 Example C05_example :
   kw_in ex1 0 (length ex1) = [(3, KType); (7, KType)] /\ EofLast ex1.
 Proof. split; [exact ex1_heads | exact ex1_eoflast]. Qed.
+
+(* ------------------------------------------------------------------------------------------ *)
+(* the shift-invariance half (Proofs/ParserShiftProofs.v).
+   [Boundary p k b]: token index b is the start offset of declaration k of p, or - for k = number of
+   declarations - the end of the declarations.  [shift_offs d l]: the same declarations (identical
+   subtrees: all ranges inside a declaration are relative to it), offsets moved by d. *)
+
+(* from a declaration boundary on, the tree is the tree of the remaining tokens parsed on their own *)
+Theorem C05_suffix_as_document : forall pre post p k,
+  EofLast (pre ++ post) -> parse (pre ++ post) = Done p -> Boundary p k (length pre) ->
+  exists p0, parse post = Done p0 /\ EofLast post /\
+    skipn k (pg_decls p) = shift_offs (length pre) (pg_decls p0) /\
+    i_e (pg_info p) = i_e (pg_info p0) + length pre.
+Proof. exact S2_suffix_as_document. Qed.
+Print Assumptions C05_suffix_as_document.
+
+Theorem C05_suffix_independent : forall pre pre' post p p' k k',
+  EofLast (pre ++ post) -> EofLast (pre' ++ post) ->
+  parse (pre ++ post) = Done p -> parse (pre' ++ post) = Done p' ->
+  Boundary p k (length pre) -> Boundary p' k' (length pre') ->
+  map (fun go => (fst go, snd go - length pre)) (skipn k (pg_decls p)) =
+  map (fun go => (fst go, snd go - length pre')) (skipn k' (pg_decls p')) /\
+  i_e (pg_info p) - length pre = i_e (pg_info p') - length pre' /\
+  map (fun go => (fst go, snd go + length pre')) (skipn k (pg_decls p)) =
+  map (fun go => (fst go, snd go + length pre)) (skipn k' (pg_decls p')) /\
+  i_e (pg_info p) + length pre' = i_e (pg_info p') + length pre.
+Proof. exact S2_suffix_independent. Qed.
+Print Assumptions C05_suffix_independent.
+
+(* the declarations starting at or before a proc/type/Eof token (index j) do not depend on what follows it *)
+Theorem C05_prefix_independent : forall toks toks' p p' j k o,
+  parse toks = Done p -> parse toks' = Done p' ->
+  (forall i, i <= j -> nth_error toks i = nth_error toks' i) ->
+  (exists t, nth_error toks j = Some t /\ sync_full (tk t) = true) ->
+  Boundary p k o -> o <= j ->
+  firstn k (pg_decls p) = firstn k (pg_decls p') /\ Boundary p' k o.
+Proof. exact S3_prefix_independent. Qed.
+Print Assumptions C05_prefix_independent.
+
+(* containment: the tokens mid are replaced by mid'; a proc/type token of the untouched prefix (index j)
+   belongs to declaration k or a later one (o <= j); the replaced tokens end at a declaration boundary
+   of either parse *)
+Theorem C05_containment : forall pre mid mid' post p p' j k o k2 k2',
+  EofLast (pre ++ mid ++ post) -> EofLast (pre ++ mid' ++ post) ->
+  parse (pre ++ mid ++ post) = Done p -> parse (pre ++ mid' ++ post) = Done p' ->
+  (exists t, nth_error pre j = Some t /\ sync_full (tk t) = true) -> Boundary p k o -> o <= j ->
+  Boundary p k2 (length pre + length mid) -> Boundary p' k2' (length pre + length mid') ->
+  firstn k (pg_decls p) = firstn k (pg_decls p') /\ Boundary p' k o /\
+  shift_offs (length mid') (skipn k2 (pg_decls p)) = shift_offs (length mid) (skipn k2' (pg_decls p')) /\
+  i_e (pg_info p) + length mid' = i_e (pg_info p') + length mid /\
+  k < k2 /\ k < k2'.
+Proof. exact S4_containment. Qed.
+Print Assumptions C05_containment.
+
+(* the same with hypotheses on the tokens only: replace anything between a proc/type token and a later
+   proc/type token that no comment directly precedes *)
+Theorem C05_containment_between_keywords : forall pre mid mid' post post' p p' j tj tq,
+  EofLast (pre ++ mid ++ post) -> EofLast (pre ++ mid' ++ post) ->
+  parse (pre ++ mid ++ post) = Done p -> parse (pre ++ mid' ++ post) = Done p' ->
+  nth_error pre j = Some tj -> is_declkw (tk tj) = true ->
+  post = tq :: post' -> is_declkw (tk tq) = true ->
+  (exists t', nth_error (pre ++ mid) (length pre + length mid - 1) = Some t' /\ is_comment (tk t') = false) ->
+  (exists t', nth_error (pre ++ mid') (length pre + length mid' - 1) = Some t' /\ is_comment (tk t') = false) ->
+  exists k g o k2 k2',
+    nth_error (pg_decls p) k = Some (g, o) /\ is_kw_decl g = true /\ sig_at (pre ++ mid ++ post) o = j /\
+    Boundary p k2 (length pre + length mid) /\ Boundary p' k2' (length pre + length mid') /\
+    firstn k (pg_decls p) = firstn k (pg_decls p') /\ Boundary p' k o /\
+    shift_offs (length mid') (skipn k2 (pg_decls p)) = shift_offs (length mid) (skipn k2' (pg_decls p')) /\
+    i_e (pg_info p) + length mid' = i_e (pg_info p') + length mid /\
+    k < k2 /\ k < k2'.
+Proof. exact S4_containment_between_keywords. Qed.
+Print Assumptions C05_containment_between_keywords.
+
+(* the published syntax errors: unchanged in front, the same errors at shifted positions behind *)
+Theorem C05_errors_contained : forall pre mid mid' post p p' j k o k2 k2',
+  EofLast (pre ++ mid ++ post) -> EofLast (pre ++ mid' ++ post) ->
+  parse (pre ++ mid ++ post) = Done p -> parse (pre ++ mid' ++ post) = Done p' ->
+  (exists t, nth_error pre j = Some t /\ sync_full (tk t) = true) -> Boundary p k o -> o <= j ->
+  Boundary p k2 (length pre + length mid) -> Boundary p' k2' (length pre + length mid') ->
+  exists before damaged damaged' after after',
+    tree_errors p = before ++ damaged ++ after /\
+    tree_errors p' = before ++ damaged' ++ after' /\
+    shift_es (length mid') after = shift_es (length mid) after' /\
+    before = decl_errors (firstn k (pg_decls p)) /\
+    damaged = decl_errors (firstn (k2 - k) (skipn k (pg_decls p))) /\
+    damaged' = decl_errors (firstn (k2' - k) (skipn k (pg_decls p'))) /\
+    after = decl_errors (skipn k2 (pg_decls p)) /\ after' = decl_errors (skipn k2' (pg_decls p')).
+Proof. exact S4_errors_contained. Qed.
+Print Assumptions C05_errors_contained.
+
+(* C05_full_statement does not hold of the model: a damage may end the damaged declaration early, and
+   the rest of its old span then becomes an additional Error declaration
+   (`proc x ( ) { x := x ; } type ...` with the first `x` of the body replaced by `}`) *)
+Theorem C05_full_statement_refuted : ~ C05_full_statement.
+Proof. exact full_statement_v0_refuted. Qed.
+Print Assumptions C05_full_statement_refuted.
+
+(* what holds instead: when the replaced tokens reach to the end of declaration k in both parses (and a
+   proc/type token of declaration k or a later one lies in front of them), the conclusion of
+   C05_full_statement follows *)
+Theorem C05_contained_in_one_declaration : forall pre mid mid' post p p' j k o,
+  EofLast (pre ++ mid ++ post) -> EofLast (pre ++ mid' ++ post) ->
+  parse (pre ++ mid ++ post) = Done p -> parse (pre ++ mid' ++ post) = Done p' ->
+  (exists t, nth_error pre j = Some t /\ sync_full (tk t) = true) -> Boundary p k o -> o <= j ->
+  Boundary p (S k) (length pre + length mid) -> Boundary p' (S k) (length pre + length mid') ->
+  same_decls_before p p' k /\ same_decls_after p p' k (length mid) (length mid').
+Proof.
+  intros pre mid mid' post p p' j k o HE HE' Hp Hp' Hj Hb Ho Hb2 Hb2'.
+  destruct (S4_containment pre mid mid' post p p' j k o (S k) (S k) HE HE' Hp Hp' Hj Hb Ho Hb2 Hb2') as (A & _ & B & _).
+  split; [exact A | exact B].
+Qed.
+Print Assumptions C05_contained_in_one_declaration.
+
+(* non-vacuity: `type x = x ; proc x ( ) { x := ; } type x = x Eof` with `; }` replaced by `}` resp. by
+   `} + +` (Proofs/ParserShiftProofs.v) - all hypotheses of C05_containment hold, the second damage
+   adds an Error declaration (k2 = 2, k2' = 3) *)
+Example C05_containment_example :
+  let p := prog_of (xpre ++ xmid ++ xpost) in let p' := prog_of (xpre ++ xmid2 ++ xpost) in
+  firstn 1 (pg_decls p) = firstn 1 (pg_decls p') /\ Boundary p' 1 5 /\
+  shift_offs 3 (skipn 2 (pg_decls p)) = shift_offs 2 (skipn 3 (pg_decls p')) /\
+  i_e (pg_info p) + 3 = i_e (pg_info p') + 2 /\ 1 < 2 /\ 1 < 3.
+Proof. exact S4_example_extra_declaration. Qed.
+
+Example C05_one_declaration_example :
+  same_decls_before (prog_of (xpre ++ xmid ++ xpost)) (prog_of (xpre ++ xmid1 ++ xpost)) 1 /\
+  same_decls_after (prog_of (xpre ++ xmid ++ xpost)) (prog_of (xpre ++ xmid1 ++ xpost)) 1 2 1.
+Proof. split; vm_compute; reflexivity. Qed.
